@@ -96,6 +96,98 @@ def h_jacobian_dirs(ctx, pname, D, P):
         ctx.eq(J[:, p], Jp[:, 0], 'jacobian(curve) dir %d' % p)
 
 
+def h_floordiv_mixed(ctx, D):
+    """x // y with one direction needing the 0/0 treatment and one regular direction"""
+    from .common import mk_utpm, plain
+    algopy = symx.load_algopy()
+    P = 2
+    X = O.make_input(ctx, O.Arg('utpm', ()), 'x', D, P)
+    Y = O.make_input(ctx, O.Arg('utpm', ()), 'y', D, P)
+    zero = S.const(0) if ctx.mode == 'sym' else 0.0
+    X[0, 0] = zero
+    Y[0, 0] = zero
+    ctx.assume(Y[1, 0] * Y[1, 0] > 1)
+    ctx.assume(Y[0, 1] * Y[0, 1] > 1)
+    z = plain((mk_utpm(ctx, algopy, X) // mk_utpm(ctx, algopy, Y)).data)
+    for p in range(P):
+        zp = plain((mk_utpm(ctx, algopy, X[:, p:p + 1]) // mk_utpm(ctx, algopy, Y[:, p:p + 1])).data)
+        ctx.eq(z[:, p], zp[:, 0], 'x // y direction %d' % p)
+
+
+def h_reverse_eigh_mixed(ctx, D):
+    """reverse sweep through eigh: direction 0 has a repeated eigenvalue at its base point
+    (splitting at order 1), direction 1 has distinct eigenvalues"""
+    from . import c08
+    from .. import stubs
+    from .c03 import Namespace, record, pullback_guard
+    from .. import programs as PR
+    from .common import plain
+    algopy = symx.load_algopy()
+    P, n = 2, 2
+    zero = S.const(0) if ctx.mode == 'sym' else 0.0
+    one = S.const(1) if ctx.mode == 'sym' else 1.0
+    X = np.empty((D, P, n, n), dtype=object)
+    lam0 = ctx.var('lam0')
+    A0 = np.empty((n, n), dtype=object)
+    A0[0, 0], A0[0, 1], A0[1, 0], A0[1, 1] = lam0, zero, zero, lam0
+    I2 = np.empty((n, n), dtype=object)
+    I2[0, 0], I2[0, 1], I2[1, 0], I2[1, 1] = one, zero, zero, one
+    Q1 = c08.rot2(ctx, 'q1')
+    mu = [ctx.var('mu0'), ctx.var('mu1')]
+    ctx.assume(mu[1] - mu[0] > 1)
+    Mm = np.empty((n, n), dtype=object)
+    Mm[0, 0], Mm[0, 1], Mm[1, 0], Mm[1, 1] = mu[0], zero, zero, mu[1]
+    A1 = np.dot(np.dot(Q1, Mm), Q1.T)
+    Qd = c08.rot2(ctx, 'qd')
+    lam = [ctx.var('l0'), ctx.var('l1')]
+    ctx.assume(lam[1] - lam[0] > 1)
+    Lm = np.empty((n, n), dtype=object)
+    Lm[0, 0], Lm[0, 1], Lm[1, 0], Lm[1, 1] = lam[0], zero, zero, lam[1]
+    B0 = np.dot(np.dot(Qd, Lm), Qd.T)
+    if ctx.mode == 'sym':
+        stubs.register('eigh', A0, (np.array([lam0, lam0], dtype=object), I2))
+        stubs.register('eigh', A1, (np.array(mu, dtype=object), Q1))
+        stubs.register('eigh', B0, (np.array(lam, dtype=object), Qd))
+    X[0, 0], X[1, 0], X[0, 1] = A0, A1, B0
+    for d in range(D):
+        for p in range(P):
+            if (d, p) in ((0, 0), (1, 0), (0, 1)):
+                continue
+            for i in range(n):
+                for j in range(n):
+                    X[d, p, i, j] = X[d, p, j, i] if j < i else ctx.var('A%d_%d[%d,%d]' % (d, p, i, j))
+    prog = PR.by_name()['eigh(2x2)']
+    consts = {}
+    for nm, shp in prog.consts.items():
+        C = np.empty(shp, dtype=object)
+        for idx in np.ndindex(*shp):
+            C[idx] = ctx.var('%s%s' % (nm, list(idx)))
+        consts[nm] = npx_sarr(ctx, C)
+    A = Namespace(algopy, consts)
+    arg = O.Arg('utpm', (n, n))
+    cg, fx, fy = record(ctx, algopy, A, prog, O.wrap(ctx, algopy, arg, X))
+    Y = plain(fy.x.data)
+    YB = np.empty(Y.shape, dtype=object)
+    for idx in np.ndindex(*Y.shape):
+        YB[idx] = ctx.var('ybar%s' % list(idx))
+    if not pullback_guard(ctx, algopy, cg, [O.wrap(ctx, algopy, O.Arg('utpm', Y.shape[2:]), YB)]):
+        return
+    XB = plain(fx.xbar.data).copy()
+    for p in range(P):
+        cg1, fx1, fy1 = record(ctx, algopy, A, prog, O.wrap(ctx, algopy, arg, X[:, p:p + 1]))
+        ctx.eq(plain(fy1.x.data)[:, 0], Y[:, p], 'forward value dir %d' % p)
+        if not pullback_guard(ctx, algopy, cg1, [O.wrap(ctx, algopy, O.Arg('utpm', Y.shape[2:]), YB[:, p:p + 1])]):
+            return
+        ctx.eq(XB[:, p], plain(fx1.xbar.data)[:, 0], 'xbar dir %d' % p)
+
+
+def npx_sarr(ctx, C):
+    from .. import npx
+    if ctx.mode == 'sym':
+        return npx.sarr(C, float)
+    return np.array(C.tolist(), dtype=float).reshape(C.shape)
+
+
 REV_PROGS = ['x*x', 'x/(1+x*x)', 'exp', 'buffer', 'dot(mat,mat)', 'dot(mat,vec)', 'outer', 'inv', 'solve', 'det', 'logdet',
              'sum(x*exp(x)/(1+x0*x1)+sin(x)*x[::-1])', 'prod', 'absolute']
 
@@ -111,6 +203,9 @@ def units(tier, seed):
     for pn in ['x*x[::-1]', 'x[1:]*x[:-1]', 'exp(dot)']:
         out.append(Unit('C11/jacobian(Taylor argument)/%s/D2,P2' % pn, 'symx.props.c11', 'h_jacobian_dirs', {'pname': pn, 'D': 2, 'P': 2},
                         {'property': PROP}))
+    out.append(Unit('C11/floordiv, 0/0 in one direction only/D3', 'symx.props.c11', 'h_floordiv_mixed', {'D': 3}, {'property': PROP}))
+    out.append(Unit('C11/reverse/eigh, repeated eigenvalue in one direction only/D2', 'symx.props.c11', 'h_reverse_eigh_mixed', {'D': 2},
+                    {'property': PROP, 'float_tol': 1e-6}))
     for pn in REV_PROGS:
         out.append(Unit('C11/reverse/%s/D2,P2' % pn, 'symx.props.c11', 'h_reverse', {'pname': pn, 'D': 2, 'P': 2},
                         {'property': PROP, 'path_budget': 300, 'float_tol': 1e-6}))
